@@ -60,6 +60,7 @@ inductive BOp
   | keys (c : Nat)
   | flush (c : Nat)
   | endFault (c : Nat)      -- end of a writing session whose first write of the exit flush raises
+  | endFaultTorn (c n : Nat) -- … raises after `n` bytes of that record reached the file (I/O error, quota): torn tail
 deriving Repr
 
 def getB (bw : BWorld) (c : Nat) : Option Backend := bw.bs c
@@ -180,6 +181,20 @@ def bstep (bw : BWorld) : BOp → BWorld × BOut
       let q' := b.queue.drop 1
       (setB { bw with w := (step bw.w (.close b.slot)).1 } c (some { b with queue := q', state := .idle }),
        if b.queue.isEmpty then .ok else .err .noSession)
+
+  | .endFaultTorn c n =>
+    match getB bw c with
+    | none => (bw, .err .noBackend)
+    | some b =>
+      match b.queue with
+      | [] => (setB { bw with w := (step bw.w (.close b.slot)).1 } c (some { b with state := .idle }), .ok)
+      | kv :: q' =>
+        -- the write of the first queued pair fails part-way: the first `n` bytes of its block are in the file, the
+        -- handle's table of contents and end-of-file mark are not advanced; the pair is lost, the rest stays queued;
+        -- the context manager still closes the file and resets the state
+        let w1 : World := { bw.w with file := bw.w.file.map (fun f => f ++ (encBlock kv).take n) }
+        (setB { bw with w := (step w1 (.close b.slot)).1 } c (some { b with queue := q', state := .idle }),
+         .err .noSession)
 
 def initB : BWorld := { w := initWorld, bs := fun _ => none }
 
